@@ -305,6 +305,7 @@ func (c *Ctx) smtInst(o *Obligation) (string, bool) {
 		cs = append(cs, k)
 	}
 	sort.Strings(cs)
+	var insts []string
 	for _, q := range hyps {
 		n := len(q.names)
 		allInt := true
@@ -317,30 +318,157 @@ func (c *Ctx) smtInst(o *Obligation) (string, bool) {
 			continue
 		}
 		if n == 1 {
+			// the goal's own skolem constants first (their witnesses are the ones the goal needs)
+			for _, v := range skolems {
+				insts = append([]string{q.instantiate([]string{v})}, insts...)
+			}
 			for _, v := range cs {
-				b.WriteString(q.instantiate([]string{v}) + "\n")
+				insts = append(insts, q.instantiate([]string{v}))
 			}
 		} else {
 			for _, v := range cs {
 				for _, w := range cs {
-					b.WriteString(q.instantiate([]string{v, w}) + "\n")
+					insts = append(insts, q.instantiate([]string{v, w}))
 				}
 			}
 		}
 	}
-	// goal-directed instantiation of element-wise array facts (ematch.go)
+	// Existentials. In an instance of a hypothesis, `guards => exists x. B` is replaced by
+	// `guards => B[x := w]` for a fresh constant w (existential elimination; sound). For a goal
+	// `exists x. B` the negated goal `forall x. not B` is instantiated at the witnesses so obtained
+	// and at the other candidate terms (only instances of the negated goal are asserted: weaker than
+	// the negated goal, so `unsat` still proves the goal).
+	var witnesses []string
+	seenInst := map[string]bool{}
+	flush := func(list []string) {
+		for _, l := range list {
+			if seenInst[l] {
+				continue
+			}
+			seenInst[l] = true
+			if strings.HasPrefix(l, "(assert ") && strings.Contains(l, "(exists ") {
+				nl, ds, ws := skolemizeHypExists(l, &cnt)
+				for _, d := range ds {
+					b.WriteString(d + "\n")
+				}
+				witnesses = append(witnesses, ws...)
+				l = nl
+			}
+			b.WriteString(l + "\n")
+		}
+	}
+	flush(insts)
+	// the negated goal: ground instances for an existential goal
+	var goalAsserts []string
+	if op, as := splitTop(goal); op == "exists" && len(as) == 2 {
+		names, sorts := parseBinders(as[0])
+		allInt := len(names) <= 2
+		for _, srt := range sorts {
+			if srt != SInt {
+				allInt = false
+			}
+		}
+		if allInt {
+			// witness candidates: the witnesses of the hypotheses first, then skolems and program
+			// variables (and their successors); kept small — the instances are squared
+			wc := append([]string{}, witnesses...)
+			if len(wc) > 8 {
+				wc = wc[:8]
+			}
+			for _, v := range cs {
+				if len(wc) >= 14 {
+					break
+				}
+				if strings.Contains(v, "|sk!") || strings.Contains(v, ".t") || strings.HasPrefix(v, "|p.") || v == "0" {
+					wc = append(wc, v)
+				}
+			}
+			body := stripPattern(as[1])
+			emit := func(vals []string) {
+				t := body
+				for i, n := range names {
+					t = strings.ReplaceAll(t, n, vals[i])
+				}
+				goalAsserts = append(goalAsserts, "(assert (not "+t+"))")
+			}
+			if len(names) == 1 {
+				for _, v := range wc {
+					emit([]string{v})
+				}
+			} else {
+				for _, v := range wc {
+					for _, w := range wc {
+						emit([]string{v, w})
+					}
+				}
+			}
+		}
+	}
+	if goalAsserts == nil {
+		goalAsserts = []string{"(assert (not " + goal + "))"}
+	}
+	// goal-directed instantiation of element-wise array facts (ematch.go), driven by the reads of
+	// the (ground) negated goal
 	{
 		var lines []string
 		for _, d := range c.decls {
 			lines = append(lines, d)
 		}
 		lines = append(lines, c.body[:o.Prefix]...)
-		for _, l := range ematchInstances(lines, hyps, goal+" "+strings.Join(ghyps, " ")+" "+o.Guard.S) {
-			b.WriteString(l + "\n")
+		var gtb strings.Builder
+		for _, g := range goalAsserts {
+			if gtb.Len()+len(g) > 2000000 {
+				break
+			}
+			gtb.WriteString(g)
+			gtb.WriteByte(' ')
 		}
+		gt := gtb.String()
+		flush(ematchInstances(lines, hyps, gt+" "+strings.Join(ghyps, " ")+" "+o.Guard.S))
 	}
-	b.WriteString("(assert (not " + goal + "))\n(check-sat)\n")
+	for _, g := range goalAsserts {
+		b.WriteString(g + "\n")
+	}
+	b.WriteString("(check-sat)\n")
 	return b.String(), true
+}
+
+// skolemizeHypExists replaces a positive existential reached through the consequents of an asserted
+// implication chain by its body with fresh constants.
+func skolemizeHypExists(line string, counter *int) (string, []string, []string) {
+	op, args := splitTop(line)
+	if op != "assert" || len(args) != 1 {
+		return line, nil, nil
+	}
+	var guards []string
+	cur := args[0]
+	for {
+		op, as := splitTop(cur)
+		if op == "=>" && len(as) == 2 {
+			guards = append(guards, as[0])
+			cur = as[1]
+			continue
+		}
+		if op == "exists" && len(as) == 2 {
+			names, sorts := parseBinders(as[0])
+			body := stripPattern(as[1])
+			var decls, ws []string
+			for i, n := range names {
+				*counter++
+				w := fmt.Sprintf("|wit!%d|", *counter)
+				decls = append(decls, fmt.Sprintf("(declare-const %s %s)", w, sorts[i]))
+				body = strings.ReplaceAll(body, n, w)
+				if sorts[i] == SInt {
+					ws = append(ws, w)
+				}
+			}
+			for i := len(guards) - 1; i >= 0; i-- {
+				body = "(=> " + guards[i] + " " + body + ")"
+			}
+			return "(assert " + body + ")", decls, ws
+		}
+		return line, nil, nil
+	}
 }
 
 // selectIndexTermsAll is selectIndexTerms without the bound-variable filter (for hypothesis bodies).
